@@ -88,7 +88,7 @@ Section EyeValue.
     { intros x. apply (wdim_snoc s s' w (wdim s cw) x Hdims). apply aget_None. intros Hin. pose proof (wf_dims s W _ Hin). unfold w in *. lia. }
     (* atoms: the child's and the others *)
     assert (PA : Permutation (total_atoms s) (atoms ct ++ flat_map (fun kt => atoms (snd kt)) (adel c (tensors s)))).
-    { unfold total_atoms. apply (flat_map_adel_perm _ c ct (tensors s) Et). }
+    { unfold total_atoms. apply (flat_map_adel_perm (fun kt : id * sarr => atoms (snd kt)) c ct (tensors s) Et). }
     set (restA := flat_map (fun kt : id * sarr => atoms (snd kt)) (adel c (tensors s))) in *.
     assert (HinA : forall a, In a (atoms ct) -> In a (total_atoms s)).
     { intros a Ha. apply (Permutation_in _ (Permutation_sym PA)). apply in_or_app. left. exact Ha. }
@@ -104,7 +104,7 @@ Section EyeValue.
       rewrite (Hw1 a Ha), map_map. f_equal. apply map_ext. intros x. unfold ii_sub, upd.
       destruct (Nat.eqb x cw); reflexivity. }
     assert (HvalB : forall r, atoms_val (atom_wires s') tbl restA r = atoms_val (atom_wires s) tbl restA r).
-    { intros r. apply atoms_val_world. intros a Ha. destruct (HinB a Ha) as [H1 H2]. symmetry. apply (Hw2 a H2).
+    { intros r. apply atoms_val_world. intros a Ha. destruct (HinB a Ha) as [H1 H2]. apply (Hw2 a H2).
       pose proof (ws_atoms_lt s WS a H1). unfold na. lia. }
     intros rho. unfold InvSem.net_value, value_s.
     rewrite (value_perm_gen R zero one add mul SR (atom_wires s') (wdim s') tbl (net_diagram s')
@@ -130,7 +130,7 @@ Section EyeValue.
                                      (if Nat.eqb k k' then one else zero))).
       + apply (sum_upto_ext R zero add). intros k' Hk'.
         rewrite !(atoms_val_app R zero one add mul SR). rewrite HvalA, HvalB. cbn [Sem.atoms_val prod_over].
-        rewrite sr_mul_1_r'. unfold atom_val at 3. rewrite Hw3. cbn [map]. rewrite Heye.
+        rewrite sr_mul_1_r'. match goal with |- ?G => idtac G end. unfold atom_val at 3. rewrite Hw3. cbn [map]. rewrite Heye.
         assert (E1 : upd (upd r cw k) w k' cw = k) by (unfold upd; rewrite Nat.eqb_refl; destruct (Nat.eqb_spec cw w); [contradiction|reflexivity]).
         assert (E2 : upd (upd r cw k) w k' w = k') by (unfold upd; rewrite Nat.eqb_refl; reflexivity).
         rewrite E1, E2. f_equal. f_equal.
